@@ -38,7 +38,7 @@ pub fn cfg() -> FsxCfg {
             weird_seeks: false,
             ..Profile::mixed()
         },
-        bias: VolBias { max_depth: 2, tight: true, ..VolBias::default() },
+        bias: VolBias { max_depth: 2, tight: true, full_dirs: true, ..VolBias::default() },
         multi: false,
         steps: (3, 14),
         ..base
